@@ -10,14 +10,14 @@ CHECKS = {
     'C01': (
         'exploration',
         'property-based testing: Hypothesis-generated and exhaustively enumerated (program, schedule) cases on a harness-owned event loop; trace invariant over the lifecycle graph',
-        'Every announced transition and every state sampled after every single event-loop callback is checked against the documented lifecycle graph, for all placements of up to K control requests (exhaustive for K<=2 quick / K<=3 thorough on 9 catalogue programs, Hypothesis-generated programs beyond), each run ending with a post-mortem burst of every control call and all late callbacks (also applied to a copy loaded from the terminal checkpoint); requests are additionally issued from 17 lifecycle-hook sites and against workchains; cleanups may raise, the caller may cancel the stepping task and step again, one-shot state-event observers unregister themselves while being called, the process may be close()d while live, steps may return Kill() without a message; the sampled state must equal the last announced state and the outcome (exception object, kill text, result) of a terminated process must never change. Exploration is the right level: the property is a safety invariant over schedules that the harness can own completely for this single-threaded asyncio library.',
+        'Every announced transition and every state sampled after every single event-loop callback is checked against the documented lifecycle graph, for all placements of up to K control requests (exhaustive for K<=2 quick / K<=3 thorough on 9 catalogue programs, Hypothesis-generated programs beyond), each run ending with a post-mortem burst of every control call and all late callbacks (also applied to a copy loaded from the terminal checkpoint); requests are additionally issued from 17 lifecycle-hook sites and against workchains; cleanups may raise, the caller may cancel the stepping task and step again, one-shot state-event observers unregister themselves while being called, the process may be close()d while live, steps may return Kill() without a message, callbacks are scheduled from outside (also before the first step), failures may carry an empty message, workchains may be recreated from a checkpoint before the request; the sampled state must equal the last announced state and the outcome (exception object, kill text, result) of a terminated process must never change. Exploration is the right level: the property is a safety invariant over schedules that the harness can own completely for this single-threaded asyncio library.',
         'Trusts the StepLoop (FIFO execution of asyncio ready handles, external requests injected between two callbacks) and the public observers (state, has_terminated, ENTERED_STATE callbacks). Raising lifecycle hooks are excluded (C03).',
         'DESIGN.md section 3 C01',
     ),
     'C02': (
         'exploration',
         'property-based testing: generated/enumerated (program, schedule, listener plan) cases on a harness-owned event loop; agreement matrix over all outcome views plus a per-callback future/terminated invariant',
-        'After every single event-loop callback the future-done => terminated invariant is checked; at the end result(), successful(), is_successful, killed(), killed_msg(), exception(), future(), listener notifications, cleanups, closedness and done-ness of the step_until_terminated() task are compared with each other and with what the program returned/raised and which kill texts were issued. Exhaustive for K<=2 (quick) / K<=3 and K=4 in one window (thorough) requests on 7 catalogue programs plus listener-issued and hook-issued calls, with one of three cleanups optionally raising, a listener registered twice, a cleanup registering a follow-up cleanup, and the caller cancelling the task that runs step_until_terminated() and stepping the process again later (scope tasks), and listeners that close() the process from its termination notification; Hypothesis-generated programs beyond.',
+        'After every single event-loop callback the future-done => terminated invariant is checked; at the end result(), successful(), is_successful, killed(), killed_msg(), exception(), future(), listener notifications, cleanups, closedness and done-ness of the step_until_terminated() task are compared with each other and with what the program returned/raised and which kill texts were issued. Exhaustive for K<=2 (quick) / K<=3 and K=4 in one window (thorough) requests on 7 catalogue programs plus listener-issued and hook-issued calls, with one of three cleanups optionally raising, a listener registered twice, a cleanup registering a follow-up cleanup, and the caller cancelling the task that runs step_until_terminated() and stepping the process again later (scope tasks), listeners that close() the process from its termination notification, and callbacks scheduled from outside; Hypothesis-generated programs beyond.',
         'Trusts the StepLoop (FIFO execution of asyncio ready handles, external requests injected between two callbacks; OS-thread races out of scope) and the public observers. Lifecycle hooks do not raise (C03).',
         'DESIGN.md section 3 C02',
     ),
@@ -31,35 +31,35 @@ CHECKS = {
     'C05': (
         'exploration',
         'property-based testing: metamorphic twin-run oracle (run with pause/play/resume requests vs the uninterrupted run with the same logical wake-ups), small-scope exhaustive + Hypothesis',
-        'The executed step sequence with arguments, outputs, final state, result and final status must equal those of the twin run; no step entry or resumption may observe paused=True; pause()/play() never raise; play() leaves the process un-paused and it stays so until the next pause request; a pause that is not withdrawn takes effect before any further step; the status present before a pause is restored by the play that ends it. Exhaustive for K<=2 (quick) / K<=3 and K=4 on waits (thorough), plus workchains, pause/play around a termination, and a save/recreate in the middle of the schedule (reload), which must be as transparent as the pause itself; the caller may cancel the future a pending pause() returned (withdraw), after which a later pause must work.',
+        'The executed step sequence with arguments, outputs, final state, result and final status must equal those of the twin run; no step entry or resumption may observe paused=True; pause()/play() never raise; play() leaves the process un-paused and it stays so until the next pause request; a pause that is not withdrawn takes effect before any further step; the status present before a pause is restored by the play that ends it. Exhaustive for K<=2 (quick) / K<=3 and K=4 on waits (thorough), plus workchains, pause/play around a termination, and a save/recreate in the middle of the schedule (reload), which must be as transparent as the pause itself; the caller may cancel the future a pending pause() returned (withdraw), after which a later pause must work; a lifecycle hook of the transition may set the status, which the play ending the pause must restore (hookstatus).',
         'Trusts the StepLoop (FIFO execution of asyncio ready handles, external requests injected between two callbacks; OS-thread races out of scope) and the public observers. Lifecycle hooks do not raise (C03).' + ' Steps are deterministic functions of their arguments (generated programs guarantee it).',
         'DESIGN.md section 3 C05',
     ),
     'C06': (
         'exploration',
         'property-based testing: exhaustive enumeration of all orders and tick gaps of wake-up events versus pause/play requests, plus Hypothesis; liveness checked as quiescence; twin-run reference for exactly-once delivery',
-        'After all enabling events were delivered, the process was played and the loop is empty, the process must not be WAITING; the continuation must have run exactly once with the first resume value (compared with the twin run; the enumerated values include None, which is a value and not the absence of one); no exception may reach the loop handler. The completion phase never re-delivers a wake-up, so a lost one cannot be masked. Workchains awaiting futures and launched children are included, also with failing or killed items around pause/play, and 2-4 waiting processes on one loop (pair scopes): every process continues with exactly the values sent to it; the stepping task may be cancelled around the wake-up and the process stepped again (tasks).',
+        'After all enabling events were delivered, the process was played and the loop is empty, the process must not be WAITING; the continuation must have run exactly once with the first resume value (compared with the twin run; the enumerated values include None, which is a value and not the absence of one); no exception may reach the loop handler. The completion phase never re-delivers a wake-up, so a lost one cannot be masked. Workchains awaiting futures and launched children are included, also with failing or killed items around pause/play, and 2-4 waiting processes on one loop (pair scopes): every process continues with exactly the values sent to it; the stepping task may be cancelled around the wake-up and the process stepped again (tasks); a kill withdrawn by its requester leaves a process that is woken up like any other (killwithdrawn).',
         'Trusts the StepLoop (FIFO execution of asyncio ready handles, external requests injected between two callbacks; OS-thread races out of scope) and the public observers. Lifecycle hooks do not raise (C03).',
         'DESIGN.md section 3 C06',
     ),
     'C03': (
         'fault_enumeration',
         'fault injection driven by property-based generation: complete enumeration of (hook / step function / callback / listener notification, occurrence, before|after super()) fault points per scenario, one injected fault per run, per-fault-class oracle',
-        'For 17 catalogue scenarios (plain, pause/play, pause before start, kill while waiting, kill before start, async with outputs and callbacks, async with pause and kill, Kill command, kill while paused in two shapes, callback while paused, six in which a listener or a hook of the process requests a kill or pause during a transition, and two with a raising cleanup) every fault point counted by a fault-free dry run is executed once with the fault injected: construction-time hooks must propagate from the constructor; pause/play hook faults must reach the requester and leave the process controllable (a further pause() is probed); listener faults and late callbacks must change nothing; every other fault must end EXCEPTED with exactly the injected exception on exception() and future() (whose exception must have been retrieved), closed, stepping task done, nothing escaped to the loop. Hypothesis adds generated scenarios with a drawn fault point.',
+        'For 17 catalogue scenarios (plain, pause/play, pause before start, kill while waiting, kill before start, async with outputs and callbacks, async with pause and kill, Kill command, kill while paused in two shapes, callback while paused, six in which a listener or a hook of the process requests a kill or pause during a transition, two with a raising cleanup, two with callbacks scheduled from outside before the first step) and for application-defined states whose exit() always fails every fault point counted by a fault-free dry run is executed once with the fault injected: construction-time hooks must propagate from the constructor; pause/play hook faults must reach the requester and leave the process controllable (a further pause() is probed); listener faults (half of them exceptions whose text cannot be rendered) and late callbacks must change nothing; every other fault must end EXCEPTED with exactly the injected exception on exception() and future() (whose exception must have been retrieved), closed, stepping task done, nothing escaped to the loop. Hypothesis adds generated scenarios with a drawn fault point.',
         'One injected fault per run and no other failure in it. The injector is an override in the generated class that calls super(); faults are plain Exception subclasses. Known finding KF-C03-1 (fault after close()) is excluded by signature and counted in the evidence.',
         'DESIGN.md section 3 C03',
     ),
     'C13': (
         'exploration',
         'property-based testing against a reference interpreter of the step commands, with a pickled-checkpoint restore at every state entry (metamorphic: restored continuation = suffix of the uninterrupted run)',
-        'Generated chains of <=6 steps over all commands (Continue with positional and keyword arguments, Wait with and without resume value, plain value, Stop, UnsuccessfulResult, Kill(msg), raise); the executed (step, args, kwargs) sequence and the final state/result/successful/killed_msg must equal the reference interpreter, for the uninterrupted run and for a continuation from every checkpoint: those taken at every state entry and those taken from inside the 7 lifecycle hooks that run between the return of a step and the next state (there the step that just returned may run once more, everything after it is exact). Keyword names include those plumpy uses for its own parameters; steps may return application-defined subclasses of the commands; an application-defined WAITING state may resume itself while being entered (that wake-up is the first).',
+        'Generated chains of <=6 steps over all commands (Continue with positional and keyword arguments, Wait with and without resume value, plain value, Stop, UnsuccessfulResult, Kill(msg), raise); the executed (step, args, kwargs) sequence and the final state/result/successful/killed_msg must equal the reference interpreter, for the uninterrupted run and for a continuation from every checkpoint: those taken at every state entry and those taken from inside the 7 lifecycle hooks that run between the return of a step and the next state (there the step that just returned may run once more, everything after it is exact). Keyword names include those plumpy uses for its own parameters; steps may return application-defined subclasses of the commands; an application-defined WAITING state may resume itself while being entered (that wake-up is the first); a resolved future may be a plain result value.',
         'Arguments are plain picklable values; each restore uses a fresh deserialisation in a fresh event loop; steps are deterministic functions of their arguments.',
         'DESIGN.md section 3 C13',
     ),
     'C09': (
         'exploration',
         'property-based testing against an independent reference interpreter of the outline language (model-based), Hypothesis-generated ASTs plus a bounded-exhaustive small family',
-        'Generated WorkChain classes are compiled from outline ASTs (steps, if_/elif_/else_, while_, return_, return_(code), nested to depth 3/4) with generated predicate truth sequences and step return sequences; the ordered list of every predicate and step call, the final state and result() must equal those of a 60-line recursive interpreter that shares no code with plumpy; steps may additionally register completed awaitables through to_context(), which does not change the denoted program; predicates may return lists, strings, tuples, ints or None instead of booleans.',
+        'Generated WorkChain classes are compiled from outline ASTs (steps, if_/elif_/else_, while_, return_, return_(code), nested to depth 3/4) with generated predicate truth sequences and step return sequences; the ordered list of every predicate and step call, the final state and result() must equal those of a 60-line recursive interpreter that shares no code with plumpy; steps may additionally register completed awaitables through to_context(), which does not change the denoted program; predicates may return lists, strings, tuples, ints or None instead of booleans; step results may be non-dict mappings; outline steps may be plain functions that are not what their name resolves to on the class.',
         'Bodies are non-empty (implicit precondition). Falling off the outline right after a ToContext-returning step accepts None or that mapping. Call counters live in ctx, predicates and steps are otherwise pure.',
         'DESIGN.md section 3 C09',
     ),
@@ -73,7 +73,7 @@ CHECKS = {
     'C07': (
         'exploration',
         'property-based testing: round-trip oracle (save, load, save = save; loaded accessors = original accessors) at every state entry and paused point, through three media and two loader configurations',
-        'Generated process programs (nested inputs, nested/dynamic outputs, wait msg/data, continuation args and kwargs over JSON scalars, nested containers, tuples and UUIDs; finished/unsuccessful/excepted/killed endings; pause/kill schedules) and workchain outlines are checkpointed at every ENTERED_STATE and every paused quiescent point; checkpoints are also taken from inside 8 lifecycle hooks, for a class with a non-identity input/output codec and for declared inputs with non-constant callable defaults; each checkpoint travels as deep copy, pickle and YAML into a fresh event loop and is saved again: the four public ways of recreating a process (Bundle.unbundle, Savable.load, recreate_from with and without a context) take turns and one loader configuration uses a loader that needs constructor arguments; a load must leave the bundle it was given unchanged; bundles must be structurally identical (exceptions by type+args, traceback text ignored) and pid/state/raw_inputs/inputs/outputs/ctx/status/paused/creation_time/outcome accessors equal.',
+        'Generated process programs (nested inputs, nested/dynamic outputs, wait msg/data, continuation args and kwargs over JSON scalars, nested containers, tuples and UUIDs; finished/unsuccessful/excepted/killed endings; pause/kill schedules) and workchain outlines are checkpointed at every ENTERED_STATE and every paused quiescent point; checkpoints are also taken from inside 8 lifecycle hooks, for a class with a non-identity input/output codec and for declared inputs with non-constant callable defaults; each checkpoint travels as deep copy, pickle and YAML into a fresh event loop and is saved again: the four public ways of recreating a process (Bundle.unbundle, Savable.load, recreate_from with and without a context) take turns and one loader configuration uses a loader that needs constructor arguments; a load must leave the bundle it was given unchanged; one program fails in on_finished after its future was resolved and must stay savable; bundles must be structurally identical (exceptions by type+args, traceback text ignored) and pid/state/raw_inputs/inputs/outputs/ctx/status/paused/creation_time/outcome accessors equal.',
         'tblib absent (traceback text ignored as the statement allows). A workchain WAITING on live futures is not savable and is counted, not judged. The custom loader is given in both save and load contexts.',
         'DESIGN.md section 3 C07',
     ),
@@ -87,14 +87,14 @@ CHECKS = {
     'C11': (
         'exploration',
         'model-based property testing: bounded-exhaustive enumeration of a two-level spec family (~10^5 spec/input pairs) plus Hypothesis-generated spec trees and perturbed inputs, compared with an independent reference model of acceptance and of the parsed form',
-        'For every (spec, inputs) pair the constructor must raise exactly when the reference model rejects; on acceptance `inputs` (as plain nested dict) must equal the model parse (defaults, callable defaults evaluated, populate_defaults=False namespaces left out, {} for namespaces with ports), every declared namespace level must refuse item assignment, raw_inputs must equal the given dict and the caller dict must be deep-equal to its pre-call copy with identical leaf objects. The same content and read-only levels are required of the process recreated from a Bundle; a quarter of the generated specs are adjusted after declaration through the port setters (default, valid_type, validator), the model judging the adjusted tree. Default factories include callable objects and functools.partial; after construction the caller adds a key to its dictionary and raw_inputs / inputs must not follow.',
+        'For every (spec, inputs) pair the constructor must raise exactly when the reference model rejects; on acceptance `inputs` (as plain nested dict) must equal the model parse (defaults, callable defaults evaluated, populate_defaults=False namespaces left out, {} for namespaces with ports), every declared namespace level must refuse item assignment, raw_inputs must equal the given dict and the caller dict must be deep-equal to its pre-call copy with identical leaf objects. The same content and read-only levels are required of the process recreated from a Bundle; a quarter of the generated specs are adjusted after declaration through the port setters (default, valid_type, validator), the model judging the adjusted tree. Default factories include callable objects and functools.partial; after construction the caller adds a key to its dictionary and raw_inputs / inputs must not follow. Validators may reject with an empty message or have the deprecated one-argument signature.',
         'Plain dict inputs, never the empty tuple; values for a namespace are dicts, ints or None; declared defaults valid by construction (setter-assigned ones need not be); validators total; no namespace-level defaults.',
         'DESIGN.md section 3 C11',
     ),
     'C12': (
         'exploration',
         'model-based property testing: generated output specs x emission sequences, the reference model is consulted after every out() and at the finish',
-        'After each out(path, value): accepted by the model => no exception, outputs equal the model outputs, listeners saw (path, value); rejected => raises (ValueError for value/type/validator/undeclared-port rejections) and outputs unchanged. At the end: FINISHED, result() is the returned value, future().result() equals outputs, is_successful/successful() equal the model validation of the collected outputs. Whole mappings are emitted onto declared namespaces (with and without explicit ports), and a quarter of the cases use a spec class whose port namespaces have another namespace separator (__ or /); a port-less namespace may be declared a second time with other options (the last declaration counts); the last emissions may be made from on_exit_running / on_finish, between the return of the last step and the entry of FINISHED.',
+        'After each out(path, value): accepted by the model => no exception, outputs equal the model outputs, listeners saw (path, value); rejected => raises (ValueError for value/type/validator/undeclared-port rejections) and outputs unchanged. At the end: FINISHED, result() is the returned value, future().result() equals outputs, is_successful/successful() equal the model validation of the collected outputs. Whole mappings are emitted onto declared namespaces (with and without explicit ports), and a quarter of the cases use a spec class whose port namespaces have another namespace separator (__ or /); a port-less namespace may be declared a second time with other options (the last declaration counts); the last emissions may be made from on_exit_running / on_finish, between the return of the last step and the entry of FINISHED; validators may reject with an empty message or have the one-argument signature.',
         'A path is never both leaf and namespace within a sequence; dynamic namespaces carry no namespace validator; a mapping emitted onto a declared namespace is the only emission into that subtree.',
         'DESIGN.md section 3 C12',
     ),
@@ -108,42 +108,42 @@ CHECKS = {
     'C15': (
         'exploration',
         'model-based property testing: enumerated rule sets over a prefix-colliding source tree plus Hypothesis-generated trees/rules/options, compared with an independent rule-selection model; metamorphic independence test by mutating both sides',
-        'The destination port tree (names, kinds and every port attribute) after expose_inputs / expose_outputs / absorb must equal the model: exactly the selected ports under the target namespace, source namespace properties overridden by namespace options, non-colliding destination ports untouched, include+exclude and unsupported options rejected with ValueError; afterwards every settable attribute of every port on one side is changed and ports are added/removed, container-valued defaults are changed in place, and the other side must not change. A third of the generated cases and an enumerated family use spec classes with another namespace separator (__ or /), whose namespaces carry an attribute only the subclass knows: exposed nested namespaces keep the class and that attribute.',
+        'The destination port tree (names, kinds and every port attribute) after expose_inputs / expose_outputs / absorb must equal the model: exactly the selected ports under the target namespace, source namespace properties overridden by namespace options, non-colliding destination ports untouched, include+exclude and unsupported options rejected with ValueError; afterwards every settable attribute of every port on one side is changed and ports are added/removed, container-valued defaults are changed in place, and the other side must not change. A third of the generated cases and an enumerated family use spec classes with another namespace separator (__ or /), whose namespaces carry an attribute only the subclass knows: exposed nested namespaces keep the class and that attribute; a refused call (include with exclude) leaves the destination unchanged.',
         'No rule is an ancestor of another in the same set; colliding destination ports are replaced.',
         'DESIGN.md section 3 C15',
     ),
     'C19': (
         'exploration',
         'property-based testing: generated class shapes / member kinds / loader configurations with a round-trip oracle (members restored, save(recreated) = save(original)), a copy-at-save metamorphic test and loader-use counters',
-        'Generated inheritance chains (<=4 levels, sibling branch) of Savable classes declared with @auto_persist; members over plain nested values, bound methods, nested Savables (depth 3) and SavableFutures in all four states; default / global custom / per-save custom loaders (also with a different loader installed globally), with and without a loader in the load context. Checked: declaration sets per class (no leakage), saved keys, every declared member restored by kind, deep mutation of the original after save() leaves the saved state untouched, custom loader recorded at save is the one resolving the class at load, tampered identifiers raise ValueError. A third of the cases first save and load another object of the family (saved with a different loader configuration) through a caller-owned load context that is then reused; a quarter declare the members of one class in its persist() hook instead of the decorator; a quarter save further members by hand through save_members()/load_members() from overridden state methods; half of the custom-loader contexts are built with copyextend(); a quarter of the cases define the classes again under the same names between save and load (the new definitions must be used); a loader with an empty allow-list in the load context must make the load raise ValueError.',
+        'Generated inheritance chains (<=4 levels, sibling branch) of Savable classes declared with @auto_persist; members over plain nested values, bound methods, nested Savables (depth 3) and SavableFutures in all four states; default / global custom / per-save custom loaders (also with a different loader installed globally), with and without a loader in the load context. Checked: declaration sets per class (no leakage), saved keys, every declared member restored by kind, deep mutation of the original after save() leaves the saved state untouched, custom loader recorded at save is the one resolving the class at load, tampered identifiers raise ValueError. A third of the cases first save and load another object of the family (saved with a different loader configuration) through a caller-owned load context that is then reused; a quarter declare the members of one class in its persist() hook instead of the decorator; a quarter save further members by hand through save_members()/load_members() from overridden state methods; half of the custom-loader contexts are built with copyextend(); a quarter of the cases define the classes again under the same names between save and load (the new definitions must be used); a loader with an empty allow-list in the load context must make the load raise ValueError, as must a class whose module fails to import; a loader that was global at save time and is only in the context at load time is in charge of nested objects too.',
         'Members are declared by the @auto_persist decorator, or by the persist() hook of a class whose ancestors declare nothing; custom loaders fall back to the default loader for foreign identifiers; futures are recreated on the loop given in the load context.',
         'DESIGN.md section 3 C19',
     ),
     'C20': (
         'exploration',
         'property-based testing with an innermost-outcome model: exhaustive enumeration of chain depth x terminal outcome x completion order x callback draining for three adapters, plus operation sequences on CancellableAction',
-        'For unwrap_kiwi_future, plum_to_kiwi_future+unwrap, Process._schedule_rpc and sync / async subscribers behind convert_to_comm every chain of depth <=3 (quick) / <=4 and sampled 5 (thorough) of futures resolving to futures is completed in every order: the adapter future must stay pending until all levels are connected and then carry exactly the innermost value object, exception object or cancellation. create_task must deliver the coroutine result/exception once, also when that exception is a concurrent.futures CancelledError / InvalidStateError instance. create_task, Process._schedule_rpc and LoopCommunicator deliveries made from a real second thread (joined before looking) must wake the loop. create_task factories may raise before a coroutine exists. CancellableAction: function called at most once with the given arguments (also when it exits with a BaseException), outcome readable on the action, second run and run after cancel refused.',
+        'For unwrap_kiwi_future, plum_to_kiwi_future+unwrap, Process._schedule_rpc and sync / async subscribers behind convert_to_comm every chain of depth <=3 (quick) / <=4 and sampled 5 (thorough) of futures resolving to futures is completed in every order: the adapter future must stay pending until all levels are connected and then carry exactly the innermost value object, exception object or cancellation. create_task must deliver the coroutine result/exception once, also when that exception is a concurrent.futures CancelledError / InvalidStateError instance. create_task, Process._schedule_rpc and LoopCommunicator deliveries made from a real second thread (joined before looking) must wake the loop, also when the wrapper or create_task was not given the loop explicitly. create_task factories may raise before a coroutine exists. CancellableAction: function called at most once with the given arguments (also when it exits with a BaseException), outcome readable on the action, second run and run after cancel refused.',
         'Thread hand-offs are modelled as loop callbacks at generated positions; handler errors of _schedule_rpc are compared through __cause__.',
         'DESIGN.md section 3 C20',
     ),
     'C16': (
         'exploration',
         'property-based testing: differential twin-run oracle (remotely controlled process vs directly controlled twin at quiescent delivery points), handler-return-value comparison for in-step deliveries, broadcast-sequence invariant, injected broadcast faults',
-        'An in-process kiwipy LocalCommunicator (bare, or wrapped in LoopCommunicator) carries RPC pause/play/kill/status sent by RemoteProcessThreadController or RemoteProcessController and broadcast pause_all/play_all/kill_all. All sequences of <=2 (quick) / <=3 (thorough) messages at quiescent points are enumerated for 5 catalogue programs: the deduplicated observable history (state, paused, status, outputs), the final outcome and every unwrapped reply must equal those of a twin that receives the equivalent direct call. In-step deliveries compare the reply with the recorded return value of the very pause/play/kill call. The state_changed.<from>.<to> broadcasts recorded by an independent subscriber must match the entered states once each, in order, sent by the pid; each of the first 6 broadcasts is made to fail with each tolerated exception and must leave the run unchanged; two, three or all announcements from an index on fail as well; message texts include the empty string; a user cleanup may raise at termination and one more status request after termination must be unroutable; a listener may close() the process from its termination notification (the last transition is still announced); the class kill() may answer with a future of a future and every RPC reply must be a final value, never a future of the process loop; either subscription of the process (RPC or broadcast) is made to time out and the other channel must keep working like the direct call; the process classes override get_status_info, so a status reply must carry the subclass entries; terminated processes must be unroutable.',
+        'An in-process kiwipy LocalCommunicator (bare, or wrapped in LoopCommunicator) carries RPC pause/play/kill/status sent by RemoteProcessThreadController or RemoteProcessController and broadcast pause_all/play_all/kill_all. All sequences of <=2 (quick) / <=3 (thorough) messages at quiescent points are enumerated for 5 catalogue programs: the deduplicated observable history (state, paused, status, outputs), the final outcome and every unwrapped reply must equal those of a twin that receives the equivalent direct call. In-step deliveries compare the reply with the recorded return value of the very pause/play/kill call. The state_changed.<from>.<to> broadcasts recorded by an independent subscriber must match the entered states once each, in order, sent by the pid; each of the first 6 broadcasts is made to fail with each tolerated exception and must leave the run unchanged; two, three or all announcements from an index on fail as well; message texts include the empty string; a user cleanup may raise at termination and one more status request after termination must be unroutable; a listener may close() the process from its termination notification (the last transition is still announced); the class kill() may answer with a future of a future and every RPC reply must be a final value, never a future of the process loop; a launched child announces its own transitions under its pid; either subscription of the process (RPC or broadcast) is made to time out and the other channel must keep working like the direct call; the process classes override get_status_info, so a status reply must carry the subclass entries; terminated processes must be unroutable.',
         'LocalCommunicator stands in for RabbitMQ (synchronous delivery; cross-thread hand-offs become loop callbacks at harness-chosen positions). Error replies are compared through __cause__. Messages sent after termination are unroutable while the twin call is a no-op.',
         'DESIGN.md section 3 C16',
     ),
     'C17': (
         'exploration',
         'stateful / model-based property testing: generated task histories against a model of replies, persister content and per-instance executed steps, for every launcher configuration',
-        'ProcessLauncher is driven directly and through LoopCommunicator(LocalCommunicator) with every combination of persister (none / in-memory / pickle), loader (default / custom counting loader) and load context (given or not): create, launch and continue tasks with persist / nowait / tag flags over five process classes (one fails in on_finished after finishing), harness checkpoints under tags, resumes and unknown task types. Checked: replies (pid / outputs / process error / TaskRejected), that a created process never runs, that a continued instance executes exactly the steps after its checkpoint, persister keys, rejected tasks have no effect, the configured loader resolves classes. All single tasks and a family of task pairs are enumerated per configuration.',
+        'ProcessLauncher is driven directly and through LoopCommunicator(LocalCommunicator) with every combination of persister (none / in-memory / pickle), loader (default / custom counting loader) and load context (given or not): create, launch and continue tasks with persist / nowait / tag flags over five process classes (one fails in on_finished after finishing), harness checkpoints under tags, resumes and unknown task types. Checked: replies (pid / outputs / process error / TaskRejected), that a created process never runs, that a continued instance executes exactly the steps after its checkpoint, persister keys, rejected tasks have no effect, the configured loader resolves classes. The load context contents and the launcher loop must reach every continued process; RemoteProcessController.execute_process is driven with nowait / no_reply; a class that only the registry loader of the launcher can name must make a persisting task fail up front. All single tasks and a family of task pairs are enumerated per configuration.',
         'pids are explicit constructor keyword arguments; a continue for an absent checkpoint must fail without running anything.',
         'DESIGN.md section 3 C17',
     ),
     'C18': (
         'exploration',
         'property-based testing over generated process sets and FIFO interleavings on the harness-owned loop; Process.current() sampled at every user-code point and between callbacks',
-        'Up to 4 generated processes with async steps, gates, launched children, re-entrantly executed processes (nest_asyncio on the harness loop, in dedicated worker processes), call_soon callbacks (also scheduled on the parent from the step of a child), children stepped in the task of the parent, control requests on children, self-pauses, kill/pause requests issued by own hooks of the process during a transition, a coroutine callback that steps a helper process after its own process has closed, workchains whose awaited child fails or is killed, and a fire-and-forget child finalised by the garbage collector in the middle of another step run on one loop with staggered starts: current() must be the running process at every step entry, after every await, in every callback, after launch() and after a nested execute(), and in every lifecycle hook the run produces by itself; the harness must see None between callbacks. All pairs (quick) / triples (thorough) of 6 catalogue shapes at 3 start offsets are enumerated.',
+        'Up to 4 generated processes with async steps, gates, launched children, re-entrantly executed processes (nest_asyncio on the harness loop, in dedicated worker processes), call_soon callbacks (also scheduled on the parent from the step of a child), children stepped in the task of the parent, control requests on children, self-pauses, kill/pause requests issued by own hooks of the process during a transition, a coroutine callback that steps a helper process after its own process has closed, workchains whose awaited child fails or is killed, a fire-and-forget child finalised by the garbage collector in the middle of another step, callbacks (plain and async callable objects) scheduled from outside any process code, and an application-defined WAITING state that runs process code in execute() run on one loop with staggered starts: current() must be the running process at every step entry, after every await, in every callback, after launch() and after a nested execute(), and in every lifecycle hook the run produces by itself; the harness must see None between callbacks. All pairs (quick) / triples (thorough) of 6 catalogue shapes at 3 start offsets are enumerated.',
         'Construction-time hooks and hooks triggered by external pause/play/kill run in the caller and are not sampled.',
         'DESIGN.md section 3 C18',
     ),
